@@ -12,6 +12,7 @@ jobs = [{"pkgdir": P, "func": "VerifSelf_" + f, "params": p, "witnesses": 6, "mo
     ("Maps", {}), ("Fmt", {}), ("Control", {}), ("IO", {}), ("Arith", {})]]
 jobs.append({"pkgdir": P, "func": "VerifSelf_RaceFree", "params": {}, "sched": "sym", "preempt": 2, "witnesses": 2})
 jobs.append({"pkgdir": P, "func": "VerifSelf_Cond", "params": {}, "sched": "sym", "preempt": 2, "witnesses": 2})
+jobs.append({"pkgdir": P, "func": "VerifSelf_Atomics", "params": {}, "sched": "sym", "preempt": 2, "witnesses": 2})
 racy = [{"pkgdir": P, "func": "VerifSelf_Racy", "params": {"mode": m}, "sched": "sym", "preempt": 1, "witnesses": 0, "max_violations": 1} for m in range(6)]
 checks.CHECKS["ZZ"] = {"jobs": lambda t: jobs, "functions": ["engine self-test"], "explanation": "engine self-test", "outside": ""}
 rc = vcheck.run_check("ZZ", "quick")
